@@ -181,33 +181,38 @@ def go_env():
     return env
 
 
-def make_overlay(d, pkgs):
-    """overlay.json mapping harness files into the packages of REPO"""
+HARNESS_PKGS = {
+    'server/commitlog': 'commitlog',
+    'server': 'server',
+    'server/protocol': 'protocol',
+    'server/telemetry': 'telemetry',
+    'server/encryption': 'encryption',
+}
+
+
+def make_overlay(d, pkg, subs):
+    """overlay.json mapping harness files into package REPO/<pkg>: the shared files in
+    harness/<pkgdir>/*.go plus those of every harness/<pkgdir>/<sub>/*.go"""
     rep = {}
-    for pkg_dir, harness_sub in pkgs.items():
-        src = os.path.join(HARNESS, harness_sub)
+    base = os.path.join(HARNESS, HARNESS_PKGS[pkg])
+    dirs = [base] + [os.path.join(base, s) for s in subs]
+    for src in dirs:
+        if not os.path.isdir(src):
+            continue
         for f in sorted(os.listdir(src)):
             if f.endswith('.go'):
-                rep[os.path.join(REPO, pkg_dir, 'zz_' + f)] = os.path.join(src, f)
+                rep[os.path.join(REPO, pkg, 'zz_' + f)] = os.path.join(src, f)
     p = os.path.join(d, 'overlay.json')
     with open(p, 'w') as fh:
         json.dump({'Replace': rep}, fh)
     return p
 
 
-HARNESS_PKGS = {
-    'server/commitlog': 'commitlog',
-    'server': 'server',
-    'server/protocol': 'protocol',
-    'server/telemetry': 'telemetry',
-}
-
-
-def go_test(pkg, run, env_extra=None, timeout=600, race=False, tags='verif', d=None, count=1):
-    """Runs `go test` for REPO/<pkg> with the harness overlay.  Returns (rc, out, wall)."""
+def go_test(pkg, run, env_extra=None, timeout=600, race=False, tags='verif', subs=(), count=1, extra_args=()):
+    """Runs `go test` for REPO/<pkg> with the harness overlay (shared harness files of the
+    package + the sub-directories named in subs, e.g. subs=['c01']).  Returns (rc, out, wall)."""
     with scratch('go') as sd:
-        sub = {k: v for k, v in HARNESS_PKGS.items() if k == pkg and os.path.isdir(os.path.join(HARNESS, v))}
-        ov = make_overlay(sd, sub)
+        ov = make_overlay(sd, pkg, subs)
         env = go_env()
         tmp = os.path.join(sd, 'tmp')
         os.makedirs(tmp, exist_ok=True)
@@ -217,6 +222,7 @@ def go_test(pkg, run, env_extra=None, timeout=600, race=False, tags='verif', d=N
                '-timeout', '%ds' % timeout, '-run', run]
         if race:
             cmd.append('-race')
+        cmd += list(extra_args)
         cmd.append('./' + pkg)
         rc, out, wall = _run(cmd, REPO, env, timeout + 60)
         return rc, out, wall
